@@ -224,6 +224,23 @@ def check_reductions(res, case, arr_vals, shape, sub, layout="C"):
                         res.violation(f"reduce|{name}", f"{name} = {float(g)!r}, exact {float(want)!r} (lane {[float(x) for x in lane]}) "
                                       f"[{s2}]", case, s2)
                         break
+        # --- the NumPy function forms (np.ptp(P) is the only spelling NumPy 2 offers for arrays) agree with the methods
+        for name in ("min", "max", "argmin", "argmax", "ptp", "sort", "argsort"):
+            if name in ("sort", "argsort") and axis is None and False:
+                continue
+            try:
+                kw_ = {"axis": axis} if (axis is not None or name in ("sort", "argsort")) else {}
+                via_np = getattr(np, name)(P, **kw_)
+                via_m = getattr(P, name)(axis) if (axis is not None or name in ("sort", "argsort")) else getattr(P, name)()
+            except Exception as e:
+                res.violation(f"reduce|np.{name}|raised", f"np.{name}(P, axis={axis}): {type(e).__name__}: {e} [{s2}]", case, s2)
+                continue
+            res.transitions += 1
+            same = (type(via_np) is type(via_m)) and (ex(via_np) == ex(via_m) if type(via_m) is Phase else
+                                                      np.array_equal(np.asarray(via_np), np.asarray(via_m)))
+            if not same:
+                res.violation(f"reduce|np.{name} differs from the method", f"np.{name}(P, axis={axis}) = {via_np!r}, P.{name}() = "
+                              f"{via_m!r} [{s2}]", case, s2)
         # --- keepdims=True: the same values with the reduced axes kept as length 1
         for name in ("min", "max", "ptp"):
             try:
